@@ -228,6 +228,19 @@ def rinit(i, structs):
     return "{" + ", ".join(rinit(x, structs) for x in i["list"]) + "}"
 
 
+def rjoined(ss, structs, ind):
+    """statements rendered in order; a declaration marked "join" becomes a further declarator of the declaration before it
+    (`static int a = 1, b;`): a list of declarators means the same as the declarations one after the other (6.7p1-6)"""
+    out = []
+    for x in ss:
+        if x.get("join") and out and x["k"] in ("decl", "static") and out[-1].rstrip().endswith(";"):
+            d = x["n"] + (" = " + rinit(x["init"], structs) if "init" in x else "")
+            out[-1] = out[-1].rstrip()[:-1] + ", " + d + ";\n"
+        else:
+            out.append(rstmt(x, structs, ind))
+    return out
+
+
 def rstmt(s, structs, ind=1):
     t = "\t" * ind
     k = s["k"]
@@ -259,7 +272,7 @@ def rstmt(s, structs, ind=1):
     if k == "vlat":
         return t + "%s %s;\n" % (s["tn"], s["n"])
     if k == "block":
-        return t + "{\n" + "".join(rstmt(x, structs, ind + 1) for x in s["ss"]) + t + "}\n"
+        return t + "{\n" + "".join(rjoined(s["ss"], structs, ind + 1)) + t + "}\n"
     if k == "if":
         o = t + "if (%s)\n" % r(s["c"]) + rstmt(s["a"], structs, ind + 1)
         if "b" in s:
@@ -325,8 +338,7 @@ def render(p):
     for f in p["funcs"]:
         if f["name"] != "main":
             o += "static %s;\n" % ctype(f["ret"], st, "%s(%s)" % (f["name"], plist(f)))
-    for g in p["globals"]:
-        o += rstmt(g, st, 0)
+    o += "".join(rjoined(p["globals"], st, 0))
     for f in p["funcs"]:
         head = ctype(f["ret"], st, "%s(%s)" % (f["name"], plist(f)))
         body = rstmt(f["body"], st, 0)
